@@ -158,6 +158,7 @@ pub struct Interp<'a> {
     pub traces: Vec<String>,
     /// number of times each `std.trace` message was emitted is derivable from `traces`
     pub steps: u64,
+    pub tailstrict_calls: u64,
     pub max_steps: u64,
     /// evaluate the operands of strict binary forms right-to-left (the order is unspecified)
     pub mirror: bool,
@@ -191,6 +192,7 @@ impl<'a> Interp<'a> {
             max_alloc: 200_000,
             traces: Vec::new(),
             steps: 0,
+            tailstrict_calls: 0,
             max_steps: 2_000_000,
             mirror: false,
         }
@@ -402,8 +404,17 @@ impl<'a> Interp<'a> {
                     }
                 }
                 if *tailstrict {
+                    // The specification forces the arguments of a tailstrict call; the
+                    // implementation does so only for calls in tail position of a function
+                    // body. tailstrict is not among the features the properties list, so a
+                    // program whose outcome depends on that forcing is outside the model.
+                    self.tailstrict_calls += 1;
                     for t in pos.iter().chain(named.iter().map(|(_, t)| t)) {
-                        self.force(*t)?;
+                        match self.force(*t) {
+                            Ok(_) => {}
+                            Err(RErr::Unsupported(w)) => return Err(RErr::Unsupported(w)),
+                            Err(_) => return Err(RErr::Unsupported("tailstrict call with a failing argument")),
+                        }
                     }
                 }
                 self.apply(&fv, &pos, &named)
@@ -1625,6 +1636,8 @@ pub enum RefOutcome {
 pub struct RefRun {
     pub outcome: RefOutcome,
     pub traces: Vec<String>,
+    /// number of tailstrict calls evaluated (their eager argument forcing is outside the model)
+    pub tailstrict_calls: u64,
 }
 
 /// Evaluates and manifests a closed program.
@@ -1638,5 +1651,6 @@ pub fn run_ref(e: &E) -> RefRun {
             Err(e) => RefOutcome::Err(e),
         },
         traces: std::mem::take(&mut it.traces),
+        tailstrict_calls: it.tailstrict_calls,
     }
 }
